@@ -112,8 +112,12 @@ _REFTAG = {}
 
 
 def ref_tag(tname):
+    """Reference = the text handed over as a StringIO (no channel discrimination, no decoding involved)."""
     if tname not in _REFTAG:
-        _REFTAG[tname] = canon.las_tag(lasio.read(TEXTS[tname]), "strict")
+        try:
+            _REFTAG[tname] = canon.las_tag(lasio.read(io.StringIO(TEXTS[tname])), "strict")
+        except Exception as e:
+            _REFTAG[tname] = ("reference-read-raises", "%s: %s" % (type(e).__name__, str(e)[:120]))
     return _REFTAG[tname]
 
 
@@ -147,8 +151,11 @@ def check_channel(pt):
     finally:
         if fobj is not None and not fobj.closed:
             fobj.close()
-    if got != ref_tag(tname):
-        return [V1(pt, "channel-result-differs", "same canonical content as read(plain string)", canon.diff_tags(ref_tag(tname), got))]
+    ref = ref_tag(tname)
+    if isinstance(ref, tuple) and ref and ref[0] == "reference-read-raises":
+        return [V1(pt, "channel-read-raises", "the reference read (StringIO, LF) succeeds", ref[1])]
+    if got != ref:
+        return [V1(pt, "channel-result-differs", "same canonical content as read(StringIO of the LF text)", canon.diff_tags(ref, got))]
     return []
 
 
@@ -173,8 +180,11 @@ PURE_TEXTS = [T_LATIN, T_WRAPPED.replace("Bohrung", "Zweite Bohrung")]
 WRITE_CFGS = [{}, {"version": 1.2, "wrap": True}, {"fmt": "%.2f", "mnemonics_header": True}]
 
 
-def apply_op(results, op, step):
+def apply_op(results, op, step, tag=None):
+    """`tag` is unique per history prefix, so that a value written by one history can never coincide with
+    what an earlier history left behind in a shared object."""
     kind = op[0]
+    tag = tag if tag is not None else str(step)
     if kind == "read":
         results.append(lasio.read(PURE_TEXTS[op[1]]))
         return True
@@ -195,7 +205,7 @@ def apply_op(results, op, step):
         return True
     if kind == "new_mutate":
         x = lasio.LASFile()
-        x.well["WELL"].value = "mutated default %d" % step
+        x.well["WELL"].value = "mutated default %s" % tag
         x.well["STRT"].unit = "XX"
         x.version["VERS"].value = 1.2
         x.version["WRAP"].descr = "changed"
@@ -215,7 +225,7 @@ def apply_op(results, op, step):
         return False
     las = results[0] if op[1] == "first" else results[-1]
     if kind == "mut_header":
-        las.well["WELL"].value = "MUTATED %d" % step
+        las.well["WELL"].value = "MUTATED %s" % tag
         las.well["NULL"].value = 12345
         las.version["WRAP"].value = "YES"
         list.__getitem__(las.params, 0).descr = "mutated"
@@ -223,7 +233,7 @@ def apply_op(results, op, step):
         for it in las.well:
             it.unit = "ZZ"
         for it in las.version:
-            it.descr = "mutated %d" % step
+            it.descr = "mutated %s" % tag
     elif kind == "mut_sections":
         las.sections["Well"].append(lasio.HeaderItem("EXTRA", "", step, "extra"))
         del las.sections["Version"][0]
@@ -232,7 +242,7 @@ def apply_op(results, op, step):
     elif kind == "rename_curve":
         if not len(las.curves):
             return False
-        list.__getitem__(las.curves, 0).mnemonic = "RENAMED%d" % step
+        list.__getitem__(las.curves, 0).mnemonic = "RENAMED%s" % tag
         las.curves.assign_duplicate_suffixes()
     elif kind == "edit_data":
         if not len(las.curves) or not len(las.curves[0].data):
@@ -325,7 +335,9 @@ def check_history(history, ref):
         if op[0] not in CREATING and results:
             target = 0 if op[1] == "first" else len(results) - 1
         try:
-            ok = apply_op(results, op, step)
+            import zlib
+            tag = "%d.%08x" % (step, zlib.crc32(json.dumps(history[:step + 1]).encode()))
+            ok = apply_op(results, op, step, tag)
         except Exception as e:
             return [], None, "op-raises"  # operations on mutated objects may legitimately fail
         if not ok:
